@@ -167,7 +167,7 @@ package tengo
 // ---------------------------------------------------------------------------
 
 //@ func (*Array).Copy
-//@   props C10 C09
+//@   props C10 C09 C15
 //@   assigns nothing
 //@   ensures kind: is(result, *Array) && fresh(result)
 //@   ensures length: len(result.(*Array).Value) == len(o.Value)
@@ -179,7 +179,7 @@ package tengo
 //@   loop 0 invariant celems: forall i in 0..len(c) :: mutablekind(old(o.Value[i])) ==> fresh(c[i])
 
 //@ func (*ImmutableArray).Copy
-//@   props C10 C09
+//@   props C10 C09 C15
 //@   assigns nothing
 //@   ensures kind: is(result, *Array) && fresh(result)
 //@   ensures length: len(result.(*Array).Value) == len(o.Value)
@@ -191,7 +191,7 @@ package tengo
 //@   loop 0 invariant celems: forall i in 0..len(c) :: mutablekind(old(o.Value[i])) ==> fresh(c[i])
 
 //@ func (*Map).Copy
-//@   props C10 C09
+//@   props C10 C09 C15
 //@   assigns nothing
 //@   ensures kind: is(result, *Map) && fresh(result) && fresh(result.(*Map).Value)
 //@   ensures elems: forall k string :: haskey(result.(*Map).Value, k)
@@ -200,7 +200,7 @@ package tengo
 //@                    ==> haskey(o.Value, k) && (mutablekind(old(o.Value[k])) ==> fresh(c[k]))
 
 //@ func (*ImmutableMap).Copy
-//@   props C10 C09
+//@   props C10 C09 C15
 //@   assigns nothing
 //@   ensures kind: is(result, *Map) && fresh(result) && fresh(result.(*Map).Value)
 //@   ensures elems: forall k string :: haskey(result.(*Map).Value, k)
@@ -209,14 +209,14 @@ package tengo
 //@                    ==> haskey(o.Value, k) && (mutablekind(old(o.Value[k])) ==> fresh(c[k]))
 
 //@ func (*Error).Copy
-//@   props C10 C09
+//@   props C10 C09 C15
 //@   requires o.Value != nil
 //@   assigns nothing
 //@   ensures kind: is(result, *Error) && fresh(result)
 //@   ensures payload: mutablekind(old(o.Value)) ==> fresh(result.(*Error).Value)
 
 //@ func (*Bytes).Copy
-//@   props C10 C09
+//@   props C10 C09 C15
 //@   assigns nothing
 //@   ensures kind: is(result, *Bytes) && fresh(result)
 //@   ensures length: len(result.(*Bytes).Value) == len(o.Value)
@@ -1016,6 +1016,22 @@ package tengo
 //@   ensures undeclared: !haskey(c.globalIndexes, name) ==> result.value == UndefinedValue
 //@   ensures declared: haskey(c.globalIndexes, name) && c.globals[c.globalIndexes[name]] != nil ==> result.value == c.globals[c.globalIndexes[name]]
 //@   ensures declared_unset: haskey(c.globalIndexes, name) && c.globals[c.globalIndexes[name]] == nil ==> result.value == UndefinedValue
+
+// GetAll: every variable handed out carries a value (an unset slot reads as undefined, never as nil) and
+// reads the slot its name is bound to
+//@ func (*Compiled).GetAll
+//@   props C15
+//@   requires indexes: forall k string :: haskey(c.globalIndexes, k) ==> 0 <= c.globalIndexes[k] && c.globalIndexes[k] < len(c.globals)
+//@   assigns nothing
+//@   ensures defined{C15}: forall i in 0..len(result) :: result[i] != nil && result[i].value != nil
+//@   ensures bound{C15}: forall i in 0..len(result) :: haskey(c.globalIndexes, result[i].name)
+//@                   && (c.globals[c.globalIndexes[result[i].name]] != nil ==> result[i].value == c.globals[c.globalIndexes[result[i].name]])
+//@                   && (c.globals[c.globalIndexes[result[i].name]] == nil ==> result[i].value == UndefinedValue)
+//@   loop 0 invariant store: cap(vars) > 0 ==> freshloop(vars)
+//@   loop 0 invariant defined{C15}: forall i in 0..len(vars) :: vars[i] != nil && freshloop(vars[i]) && vars[i].value != nil
+//@   loop 0 invariant bound{C15}: forall i in 0..len(vars) :: haskey(c.globalIndexes, vars[i].name)
+//@                   && (c.globals[c.globalIndexes[vars[i].name]] != nil ==> vars[i].value == c.globals[c.globalIndexes[vars[i].name]])
+//@                   && (c.globals[c.globalIndexes[vars[i].name]] == nil ==> vars[i].value == UndefinedValue)
 
 //@ func (*Compiled).IsDefined
 //@   props C15
